@@ -2,6 +2,7 @@ mod alloc;
 mod auth;
 mod autoalloc;
 mod stream;
+mod sched;
 mod journal;
 mod oracle;
 mod panics;
@@ -243,6 +244,10 @@ fn main() {
         }
         "journal" => {
             let code = journal::main(&args[2..]);
+            std::process::exit(code);
+        }
+        "sched" => {
+            let code = sched::main(&args[2..]);
             std::process::exit(code);
         }
         "stream" => {
